@@ -239,9 +239,9 @@ def r16d(run, C):
     # order: shortcut test dominates the memo read, which dominates the scan; base fallback after the scan
     sc = [n for n in fa.cfg.nodes if n.kind == "test" and "self.shortcut" in unparse(n.ast)]
     memo = [n for n in fa.cfg.nodes if n.kind == "test" and "self._cache" in unparse(n.ast)]
-    base = [n for n in fa.cfg.nodes if n.kind == "test" and unparse(n.ast) == "self.base"]
+    base = [n for n in fa.cfg.nodes if n.kind in ("test", "stmt") and "self.base" in unparse(n.ast)]
     ok = bool(sc and memo and base) and fa.cfg.dominates(sc[0], memo[0]) and fa.cfg.dominates(memo[0], lp) \
-        and fa.cfg.dominates(lp, base[0])
+        and all(fa.cfg.dominates(lp, b) for b in base)
     run.check("R16d", f, "resolve consults shortcut, memo, the list, the base registry, the default - in that order", ok,
               construct="resolve order", message="TypeRegistry.resolve does not consult shortcut -> memo -> scan -> "
               "base -> default in this order", necessity="a base registration could shadow an own registration")
